@@ -66,6 +66,11 @@ pub struct Node {
 fn size_attrs(rng: &mut Rng, el: &mut El, shape: &str, w: f64, h: f64) {
     let f = |v: f64| fstr_ref(v);
     match shape {
+        // a circle or ellipse may also be sized like a box, by width and height (wh): the same element
+        "circle" | "ellipse" if rng.chance(1, 4) => {
+            if rng.chance(1, 2) { el.push("wh", &if shape == "circle" && rng.chance(1, 2) { f(w) } else { format!("{} {}", f(w), f(h)) }); }
+            else { el.push("width", &f(w)); el.push("height", &f(h)); }
+        }
         "circle" => el.push("r", &f(w / 2.0)),
         "ellipse" => {
             if rng.chance(1, 2) {
